@@ -70,7 +70,12 @@ class Spec:
             return None
         if which == 'invalid':
             return 5
+        if which == 'invalid-late':
+            return 'a,,b'         # passes the answers schema, refused by the post-schema validation (blank item)
         return tab[which]
+
+    def expects(self):
+        return EXPECTS + (['invalid-late'] if self.name == 'singlelist' else [])
 
     def right_for(self, eff):
         """an input that is right for the effective expect (None -> no answer available)"""
@@ -179,7 +184,7 @@ def h_sequence(E, cls, configured, debug, length):
     last_good = None
     sig = []
     for step in range(length):
-        ex = E.choice('expect%d' % step, EXPECTS)
+        ex = E.choice('expect%d' % step, spec.expects())
         kind = E.choice('input%d' % step, INPUTS)
         expect = spec.expect(ex)
         # reference state machine
@@ -187,7 +192,7 @@ def h_sequence(E, cls, configured, debug, length):
             eff = spec.configured_expect()
         elif ex in ('e1', 'e2'):
             eff = expect
-        elif ex == 'invalid':
+        elif ex in ('invalid', 'invalid-late'):
             eff = 'INVALID'
         else:
             eff = last_good
